@@ -3,14 +3,21 @@
 //! * tie: what the real `gather_defs`/`gather_refs` return is serialised to the Lean model
 //!   (`c16 renum ...`); the model's result must equal the real `Renumberer::renumber` result
 //!   (`ok <hex>` / `err` / `panic`).  `c16 labelsok` checks the `LabelsOK` contract on the gathered labels.
-//! * direct oracles (independent of the model): the generator knows every number it wrote (primary,
-//!   reference, or plain text); the expected output is rendered from that knowledge and compared.
+//! * direct oracles (independent of the model): the generator knows every number it wrote (defining label,
+//!   reference, or plain text), which lines a request selects and where they have to go.  From that knowledge it
+//!   renders the ONE text an accepted request may return (`expected_text`, the statement of `renumber_correct` /
+//!   `moved_block_placed`) and decides whether the request must be refused (`expect_refuse`, the statement of
+//!   `refused_iff`); both are compared with what the real code does.
+//! * object reuse: sessions of 2-5 calls on ONE `Renumberer` (accepted, refused, aborted in the middle of a gather
+//!   pass) compared call by call with a fresh object (`renumber_history_independent`).
 use crate::util::*;
 use a2kit::lang::linenum::{LabelInformation, Renumber};
 use std::collections::BTreeMap;
 
+/// a piece of a line: literal text, a defining line number, or a reference; numbers carry the text they were
+/// written with (`0010`, `1 0`)
 #[derive(Clone, Debug)]
-enum Seg { Lit(String), Prim(usize), Ref(usize) }
+enum Seg { Lit(String), Prim(usize, String), Ref(usize, String) }
 type PLine = Vec<Seg>;
 
 #[derive(Clone, Copy, PartialEq)]
@@ -20,73 +27,125 @@ impl Lang {
     fn max(&self) -> usize { match self { Lang::Applesoft => 63999, Lang::Integer => 32767 } }
 }
 
-struct Prog { lines: Vec<PLine>, crlf: bool, trailing: bool }
+/// `seps[i]` terminates line `i`; the last line has one only if `trailing`
+struct Prog { lines: Vec<PLine>, seps: Vec<&'static str>, trailing: bool }
 
-fn is_blank(l: &PLine) -> bool { !l.iter().any(|s| matches!(s, Seg::Prim(_))) }
+fn prim_of(l: &PLine) -> Option<usize> { l.iter().find_map(|s| if let Seg::Prim(n, _) = s { Some(*n) } else { None }) }
+fn is_blank(l: &PLine) -> bool { prim_of(l).is_none() }
 
+fn plain(s: &Seg) -> String { match s { Seg::Lit(t) => t.clone(), Seg::Prim(_, t) | Seg::Ref(_, t) => t.clone() } }
 fn render_line(l: &PLine, f: &dyn Fn(&Seg) -> String) -> String { l.iter().map(|s| f(s)).collect() }
 
-fn plain(s: &Seg) -> String { match s { Seg::Lit(t) => t.clone(), Seg::Prim(n) | Seg::Ref(n) => n.to_string() } }
-
 impl Prog {
-    fn render_with(&self, lines: &Vec<String>) -> String {
-        let sep = if self.crlf { "\r\n" } else { "\n" };
-        let mut s = lines.join(sep);
-        if self.trailing && !lines.is_empty() { s += sep; }
+    fn text(&self) -> String {
+        let mut s = String::new();
+        for (i, l) in self.lines.iter().enumerate() {
+            s += &render_line(l, &plain);
+            if i + 1 < self.lines.len() || self.trailing { s += self.seps[i]; }
+        }
         s
     }
-    fn text(&self) -> String { self.render_with(&self.lines.iter().map(|l| render_line(l, &plain)).collect()) }
-    fn nums(&self) -> Vec<usize> {
-        self.lines.iter().filter_map(|l| l.iter().find_map(|s| if let Seg::Prim(n) = s { Some(*n) } else { None })).collect()
+    /// what `apply_edits` takes the document for: CRLF iff every `\n` is preceded by `\r` (also when there is none)
+    fn crlf_doc(&self) -> bool {
+        let n = if self.trailing { self.lines.len() } else { self.lines.len().saturating_sub(1) };
+        self.seps.iter().take(n).all(|s| *s == "\r\n")
     }
+    fn mixed(&self) -> bool {
+        let n = if self.trailing { self.lines.len() } else { self.lines.len().saturating_sub(1) };
+        let c = self.seps.iter().take(n).filter(|s| **s == "\r\n").count();
+        c != 0 && c != n
+    }
+    fn nums(&self) -> Vec<usize> { self.lines.iter().filter_map(prim_of).collect() }
 }
 
 fn lit(s: &str) -> Seg { Seg::Lit(s.to_string()) }
 
-/// one statement; `refs` draws a reference target
+/// the text a number is written with: plain, leading zeros, blanks between the digits
+fn num_text(rng: &mut Rng, n: usize) -> String {
+    let t = n.to_string();
+    match rng.below(40) {
+        0 => format!("0{}", t),
+        1 => format!("00{}", t),
+        2 if t.len() >= 2 => { let k = rng.range(1, t.len() - 1); format!("{} {}", &t[..k], &t[k..]) }
+        _ => t,
+    }
+}
+fn rf(rng: &mut Rng, n: usize) -> Seg { let t = num_text(rng, n); Seg::Ref(n, t) }
+
+/// one statement; `target` draws a reference target
 fn gen_statement(rng: &mut Rng, lang: Lang, target: &mut dyn FnMut(&mut Rng) -> usize, last: bool) -> Vec<Seg> {
     let sp = |rng: &mut Rng| -> &'static str { *rng.pick(&[" ", " ", " ", "", "  "]) };
     let comma = |rng: &mut Rng| -> &'static str { *rng.pick(&[",", ",", ", ", " ,", " , "]) };
     let lower = rng.chance(10);
     let kw = |s: &str| -> String { if lower { s.to_lowercase() } else { s.to_string() } };
     let mut v: Vec<Seg> = Vec::new();
-    let k = rng.below(if lang == Lang::Applesoft { 20 } else { 16 });
+    let k = rng.below(if lang == Lang::Applesoft { 24 } else { 18 });
     match (lang, k) {
-        (_, 0) | (_, 1) | (_, 2) => { v.push(Seg::Lit(kw("GOTO") + sp(rng))); v.push(Seg::Ref(target(rng))); }
-        (_, 3) | (_, 4) => { v.push(Seg::Lit(kw("GOSUB") + sp(rng))); v.push(Seg::Ref(target(rng))); }
-        (_, 5) | (_, 6) => { v.push(Seg::Lit(kw("IF A=1 THEN") + sp(rng))); v.push(Seg::Ref(target(rng))); }
-        (_, 7) => { v.push(Seg::Lit(kw("IF A>B THEN GOTO") + sp(rng))); v.push(Seg::Ref(target(rng))); }
+        (_, 0) | (_, 1) => { v.push(Seg::Lit(kw("GOTO") + sp(rng))); let t = target(rng); v.push(rf(rng, t)); }
+        (Lang::Applesoft, 2) => { v.push(Seg::Lit(kw("GO TO") + sp(rng))); let t = target(rng); v.push(rf(rng, t)); }
+        (Lang::Integer, 2) => { v.push(Seg::Lit(kw("GOTO") + sp(rng))); let t = target(rng); v.push(rf(rng, t)); }
+        (_, 3) | (_, 4) => { v.push(Seg::Lit(kw("GOSUB") + sp(rng))); let t = target(rng); v.push(rf(rng, t)); }
+        (_, 5) | (_, 6) => { v.push(Seg::Lit(kw("IF A=1 THEN") + sp(rng))); let t = target(rng); v.push(rf(rng, t)); }
+        (_, 7) => { v.push(Seg::Lit(kw("IF A>B THEN GOTO") + sp(rng))); let t = target(rng); v.push(rf(rng, t)); }
         (_, 8) => v.push(lit(*rng.pick(&["PRINT \"GOTO 10\"", "PRINT \"20 GOSUB 30\"", "PRINT \"100\";A"]))),
         (_, 9) => v.push(Seg::Lit(format!("A={}", rng.pick(&[10usize, 20, 100, 63999, 7])))),
         (_, 10) => v.push(lit(*rng.pick(&["POKE 768,10", "PRINT 10", "PRINT 20;30", "FOR I=10 TO 20", "NEXT I", "END", "RETURN"]))),
         (_, 11) if last => v.push(lit(*rng.pick(&["REM GOTO 10", "REM 10 20 30 GOSUB 40", "REM", "rem then 100"]))),
         (_, 12) => v.push(lit(*rng.pick(&["IF A=10 THEN PRINT 20", "IF A=10 THEN A=20", "B=A*100+20"]))),
+        // computed targets are not references
         (Lang::Integer, 13) => v.push(lit(*rng.pick(&["GOTO A*10", "GOSUB A+100", "GOTO 100+A", "IF A THEN B*10", "GOTO (100)"]))),
+        (Lang::Integer, 14) => {
+            // LIST a,b is a statement of the Integer grammar
+            v.push(Seg::Lit(kw("LIST") + sp(rng))); let t = target(rng); v.push(rf(rng, t));
+            if rng.chance(60) { v.push(lit(comma(rng))); let t = target(rng); v.push(rf(rng, t)); }
+        }
         (Lang::Applesoft, 13) | (Lang::Applesoft, 14) | (Lang::Applesoft, 15) => {
             v.push(Seg::Lit(kw(*rng.pick(&["ON X GOTO", "ON X GOSUB", "ON A+1 GOTO"])) + sp(rng)));
-            let n = rng.range(1, 4);
+            let n = rng.range(1, 5);
+            let mut prev: Option<usize> = None;
             for i in 0..n {
                 if i > 0 { v.push(lit(comma(rng))); }
-                v.push(Seg::Ref(target(rng)));
+                // duplicate targets in one list
+                let t = match prev { Some(p) if rng.chance(30) => p, _ => target(rng) };
+                prev = Some(t);
+                v.push(rf(rng, t));
             }
         }
-        (Lang::Applesoft, 16) => { v.push(Seg::Lit(kw("ONERR GOTO") + sp(rng))); v.push(Seg::Ref(target(rng))); }
+        (Lang::Applesoft, 16) => { v.push(Seg::Lit(kw("ONERR GOTO") + sp(rng))); let t = target(rng); v.push(rf(rng, t)); }
         (Lang::Applesoft, 17) => v.push(lit(*rng.pick(&["DATA 10,20,30", "DATA 100", "HOME", "HTAB 10: VTAB 20"]))),
-        (Lang::Applesoft, 18) => { v.push(Seg::Lit(kw("IF B THEN") + sp(rng))); v.push(Seg::Ref(target(rng))); v.push(lit(" ")); }
+        (Lang::Applesoft, 18) => { v.push(Seg::Lit(kw("IF B THEN") + sp(rng))); let t = target(rng); v.push(rf(rng, t)); v.push(lit(" ")); }
+        (Lang::Applesoft, 19) => {
+            // LIST a , b  /  LIST a - b  /  LIST a
+            v.push(Seg::Lit(kw("LIST") + sp(rng))); let t = target(rng); v.push(rf(rng, t));
+            if rng.chance(60) { v.push(lit(*rng.pick(&[",", "-", " , ", " - "]))); let t = target(rng); v.push(rf(rng, t)); }
+        }
+        (Lang::Applesoft, 20) => {
+            v.push(Seg::Lit(kw("DEL") + sp(rng))); let t = target(rng); v.push(rf(rng, t));
+            v.push(lit(comma(rng))); let t = target(rng); v.push(rf(rng, t));
+        }
+        (Lang::Applesoft, 21) => { v.push(Seg::Lit(kw("RUN") + sp(rng))); let t = target(rng); v.push(rf(rng, t)); }
         _ => v.push(lit(*rng.pick(&["PRINT A", "A=B", "TEXT", "B=B+1"]))),
     }
     v
 }
 
-fn gen_prog(rng: &mut Rng, lang: Lang) -> Prog {
+#[derive(Clone, Copy, PartialEq)]
+enum Size { Normal, Long }
+
+fn gen_prog(rng: &mut Rng, lang: Lang, size: Size) -> Prog {
     let max = lang.max();
-    let nlines = match rng.below(10) { 0 => 1, 1 => 2, 2..=6 => rng.range(3, 7), _ => rng.range(8, 14) };
+    let nlines = match size {
+        Size::Long => rng.range(2000, 2400),
+        Size::Normal => match rng.below(10) { 0 => 1, 1 => 2, 2..=6 => rng.range(3, 7), _ => rng.range(8, 14) },
+    };
     let mut nums: Vec<usize> = Vec::new();
-    let mut cur = match rng.below(6) { 0 => 0, 1 => rng.range(0, 9), 2 => rng.range(max - 200, max - 20), 3 => rng.range(900, 1100), _ => rng.range(1, 120) };
+    let mut cur = match (size, rng.below(6)) {
+        (Size::Long, _) => rng.range(0, 50),
+        (_, 0) => 0, (_, 1) => rng.range(0, 9), (_, 2) => rng.range(max - 200, max - 20), (_, 3) => rng.range(900, 1100), _ => rng.range(1, 120) };
     for _ in 0..nlines {
         if cur > max { break; }
         nums.push(cur);
-        cur += *rng.pick(&[1usize, 1, 2, 5, 10, 10, 10, 10, 90, 100, 1000]);
+        cur += match size { Size::Long => *rng.pick(&[1usize, 1, 2, 5, 10, 10]), Size::Normal => *rng.pick(&[1usize, 1, 2, 5, 10, 10, 10, 10, 90, 100, 1000]) };
     }
     let pool = nums.clone();
     let mut target = move |rng: &mut Rng| -> usize {
@@ -98,12 +157,13 @@ fn gen_prog(rng: &mut Rng, lang: Lang) -> Prog {
     };
     let mut lines: Vec<PLine> = Vec::new();
     for n in &nums {
-        if rng.chance(12) { lines.push(vec![lit(*rng.pick(&["", "", " ", "  "]))]); }
+        if rng.chance(if size == Size::Long { 2 } else { 12 }) { lines.push(vec![lit(*rng.pick(&["", "", " ", "  "]))]); }
         let mut l: PLine = Vec::new();
         if rng.chance(6) { l.push(lit(" ")); }
-        l.push(Seg::Prim(*n));
+        let t = num_text(rng, *n);
+        l.push(Seg::Prim(*n, t));
         l.push(lit(*rng.pick(&[" ", " ", " ", "  ", ""])));
-        let ns = rng.range(1, 3);
+        let ns = if size == Size::Long { 1 } else { rng.range(1, 3) };
         for i in 0..ns {
             if i > 0 { l.push(lit(*rng.pick(&[":", ": ", " : "]))); }
             let mut st = gen_statement(rng, lang, &mut target, i + 1 == ns);
@@ -117,9 +177,12 @@ fn gen_prog(rng: &mut Rng, lang: Lang) -> Prog {
         lines.push(l);
     }
     if rng.chance(8) { lines.push(vec![lit("")]); }
-    Prog { lines, crlf: rng.chance(25), trailing: rng.chance(50) }
+    let style = rng.below(20);   // 0..=3 CRLF, 4 mixed, else LF
+    let seps: Vec<&'static str> = (0..lines.len()).map(|_| match style { 0..=3 => "\r\n", 4 => if rng.chance(50) { "\r\n" } else { "\n" }, _ => "\n" }).collect();
+    Prog { lines, seps, trailing: rng.chance(50) }
 }
 
+#[derive(Clone)]
 struct Req { beg: usize, end: usize, first: usize, step: usize, flags: u64 }
 
 fn gen_req(rng: &mut Rng, lang: Lang, nums: &Vec<usize>) -> Req {
@@ -129,17 +192,22 @@ fn gen_req(rng: &mut Rng, lang: Lang, nums: &Vec<usize>) -> Req {
         let b = *rng.pick(nums);
         match rng.below(4) { 0 => b, 1 => b + 1, 2 => b.saturating_sub(1), _ => b + rng.range(0, 12) }
     };
-    let (beg, end) = match rng.below(24) {
+    let (beg, end) = match rng.below(28) {
         0 | 1 | 2 => (0, usize::MAX),
         3 => (0, near(rng)),
         4 => (near(rng), usize::MAX),
         5 => { let b = near(rng); (b, b) }                                   // empty
         6 => { let b = near(rng); (b + 1, b.saturating_sub(1)) }             // beg > end
         7 => { let m = nums.iter().max().cloned().unwrap_or(0); (m + 1, m + 100) } // beyond the program
+        8 | 9 | 10 if !nums.is_empty() => { let b = *rng.pick(nums); (b, b + 1) }  // exactly one line
+        11 if !nums.is_empty() => (0, nums[0] + 1),                           // the first line
+        12 if !nums.is_empty() => (*nums.last().unwrap(), usize::MAX),        // the last line
         _ => { let a = near(rng); let b = near(rng); (a.min(b), a.max(b) + rng.below(2)) }
     };
     let sel: Vec<usize> = nums.iter().cloned().filter(|n| *n >= beg && *n < end).collect();
-    let first = match rng.below(12) {
+    let lo = nums.first().cloned().unwrap_or(0);
+    let hi = nums.last().cloned().unwrap_or(0);
+    let first = match rng.below(16) {
         0 => 0,
         1 => rng.range(1, 9),
         2 => max,
@@ -148,10 +216,13 @@ fn gen_req(rng: &mut Rng, lang: Lang, nums: &Vec<usize>) -> Req {
         5 | 6 => near(rng),
         7 | 8 if !sel.is_empty() => { let s0 = sel[0]; match rng.below(3) { 0 => s0, 1 => s0 + 1, _ => s0.saturating_sub(rng.range(0, 9)) } }
         9 => rng.range(1000, 1010),
+        10 => lo.saturating_sub(rng.range(1, 12)),        // in front of the whole program
+        11 | 12 => hi + rng.range(1, 40),                 // behind the whole program
+        13 if !sel.is_empty() && sel.len() >= 1 => { let n = sel.len(); max.saturating_sub(n - 1) }  // last new number == max
         _ => rng.range(0, 200),
     };
-    let step = match rng.below(12) { 0 => 0, 1 | 2 | 3 => 1, 4 => 2, 5 => 5, 6 | 7 | 8 => 10, 9 => 100, 10 => rng.range(1, 2000), _ => if rng.chance(50) { max } else { max + 1 } };
-    let flags = match rng.below(20) { 0..=9 => 0, 10..=17 => 1, 18 => 2, _ => 3 };
+    let step = match rng.below(12) { 0 => 0, 1 | 2 | 3 | 4 => 1, 5 => 2, 6 => 5, 7 | 8 => 10, 9 => 100, 10 => rng.range(1, 2000), _ => if rng.chance(50) { max } else { max + 1 } };
+    let flags = match rng.below(20) { 0..=8 => 0, 9..=17 => 1, 18 => 2, _ => 3 };
     Req { beg, end, first, step, flags }
 }
 
@@ -182,19 +253,26 @@ fn gather(lang: Lang, src: &str) -> Result<(Vec<(usize, LabelInformation)>, Vec<
     match r { Ok(Ok((d, s))) => Ok((flat(d), flat(s))), Ok(Err(e)) => Err(format!("err:{}", e)), Err(p) => Err(format!("panic:{}", panic_site(&p))) }
 }
 
+/// one `Renumberer` of either dialect
+enum Obj { A(a2kit::lang::applesoft::renumber::Renumberer), I(a2kit::lang::integer::renumber::Renumberer) }
+impl Obj {
+    fn new(lang: Lang) -> Obj { match lang { Lang::Applesoft => Obj::A(a2kit::lang::applesoft::renumber::Renumberer::new()), Lang::Integer => Obj::I(a2kit::lang::integer::renumber::Renumberer::new()) } }
+    fn renumber(&mut self, src: &str, rq: &Req) -> Result<String, String> {
+        match self {
+            Obj::A(r) => { r.set_flags(rq.flags); r.renumber(src, rq.beg, rq.end, rq.first, rq.step).map_err(|e| e.to_string()) }
+            Obj::I(r) => { r.set_flags(rq.flags); r.renumber(src, rq.beg, rq.end, rq.first, rq.step).map_err(|e| e.to_string()) }
+        }
+    }
+    fn gather_only(&mut self, src: &str, defs: bool) -> bool {
+        match (self, defs) {
+            (Obj::A(r), true) => r.gather_defs(src, 0).is_ok(), (Obj::A(r), false) => r.gather_refs(src, 0).is_ok(),
+            (Obj::I(r), true) => r.gather_defs(src, 0).is_ok(), (Obj::I(r), false) => r.gather_refs(src, 0).is_ok(),
+        }
+    }
+}
+
 fn run_real(lang: Lang, src: &str, rq: &Req) -> Result<Result<String, String>, String> {
-    guarded(|| match lang {
-        Lang::Applesoft => {
-            let mut r = a2kit::lang::applesoft::renumber::Renumberer::new();
-            r.set_flags(rq.flags);
-            r.renumber(src, rq.beg, rq.end, rq.first, rq.step).map_err(|e| e.to_string())
-        }
-        Lang::Integer => {
-            let mut r = a2kit::lang::integer::renumber::Renumberer::new();
-            r.set_flags(rq.flags);
-            r.renumber(src, rq.beg, rq.end, rq.first, rq.step).map_err(|e| e.to_string())
-        }
-    })
+    guarded(|| Obj::new(lang).renumber(src, rq))
 }
 
 fn ser_labels(v: &Vec<(usize, LabelInformation)>) -> String {
@@ -202,7 +280,7 @@ fn ser_labels(v: &Vec<(usize, LabelInformation)>) -> String {
     v.iter().map(|(n, i)| format!("{},{},{},{},{},{},{}", n, i.rng.start.line, i.rng.start.character, i.rng.end.line, i.rng.end.character, i.leading_space, i.trailing_space)).collect::<Vec<_>>().join(";")
 }
 
-/// where the generator put the numbers: (num,row,col0,col1) of the digits
+/// where the generator put the numbers: (num,row,col0,col1) from the first to the last digit
 fn known_positions(p: &Prog) -> (Vec<(usize, usize, usize, usize)>, Vec<(usize, usize, usize, usize)>) {
     let (mut prims, mut refs) = (Vec::new(), Vec::new());
     for (row, l) in p.lines.iter().enumerate() {
@@ -210,8 +288,8 @@ fn known_positions(p: &Prog) -> (Vec<(usize, usize, usize, usize)>, Vec<(usize, 
         for s in l {
             let t = plain(s);
             match s {
-                Seg::Prim(n) => prims.push((*n, row, col, col + t.len())),
-                Seg::Ref(n) => refs.push((*n, row, col, col + t.len())),
+                Seg::Prim(n, _) => prims.push((*n, row, col, col + t.len())),
+                Seg::Ref(n, _) => refs.push((*n, row, col, col + t.len())),
                 _ => {}
             }
             col += t.len();
@@ -227,19 +305,97 @@ fn digit_span(v: &Vec<(usize, LabelInformation)>) -> Vec<(usize, usize, usize, u
 /// split the way `str::lines` does
 fn out_lines(s: &str) -> Vec<String> { s.lines().map(|l| l.to_string()).collect() }
 
-/// read the numbers found in `actual` at the number segments of `l`; None if a literal segment differs
+// ---------------------------------------------------------------------------------------------------------
+// what the generator knows about a request
+// ---------------------------------------------------------------------------------------------------------
+
+struct Know {
+    sel_rows: Vec<usize>,          // rows of the selected numbered lines, ascending
+    mapping: BTreeMap<usize, usize>,
+    last_new: usize,
+    ins: usize,                    // row in front of which the block has to stand
+    needs_move: bool,
+}
+
+fn row_blank(l: &PLine) -> bool { render_line(l, &plain).chars().all(|c| c.is_whitespace()) }
+
+fn know(prog: &Prog, rq: &Req) -> Option<Know> {
+    let numbered: Vec<(usize, usize)> = prog.lines.iter().enumerate().filter_map(|(r, l)| prim_of(l).map(|n| (r, n))).collect();
+    let sel: Vec<(usize, usize)> = numbered.iter().cloned().filter(|(_, n)| *n >= rq.beg && *n < rq.end).collect();
+    if sel.is_empty() { return None; }
+    let mapping: BTreeMap<usize, usize> = sel.iter().enumerate().map(|(i, (_, n))| (*n, rq.first.saturating_add(i.saturating_mul(rq.step)))).collect();
+    let last_new = rq.first.saturating_add(rq.step.saturating_mul(sel.len() - 1));
+    let a = sel[0].0;
+    // behind the last unselected line whose number is below `first`, then past blank rows
+    let mut ins = numbered.iter().filter(|(_, n)| !(*n >= rq.beg && *n < rq.end) && *n < rq.first).map(|(r, _)| r + 1).max().unwrap_or(0);
+    while ins < prog.lines.len() && row_blank(&prog.lines[ins]) { ins += 1; }
+    Some(Know { sel_rows: sel.iter().map(|(r, _)| *r).collect(), mapping, last_new, ins, needs_move: ins != a })
+}
+
+/// the statement of `refused_iff`, decided on the generator's knowledge; `None` = no reason to refuse
+fn expect_refuse(prog: &Prog, rq: &Req, max: usize) -> Option<&'static str> {
+    let nums = prog.nums();
+    let k = match know(prog, rq) { None => return Some("empty-selection"), Some(k) => k };
+    let mut sorted = nums.clone(); sorted.sort(); sorted.dedup();
+    if sorted.len() != nums.len() { return Some("duplicate-source-number"); }
+    if rq.first > max || rq.step < 1 || rq.step > max { return Some("bad-parameters"); }
+    if k.last_new > max { return Some("over-max"); }
+    if nums.iter().any(|n| !(*n >= rq.beg && *n < rq.end) && *n >= rq.first && *n <= k.last_new) { return Some("dup-or-interleave"); }
+    if k.needs_move && rq.flags & 1 == 0 { return Some("move-not-allowed"); }
+    if k.needs_move && !prog.trailing && *k.sel_rows.last().unwrap() + 1 == prog.lines.len() { return Some("move-last-row-no-newline"); }
+    None
+}
+
+/// the one text an accepted request may return (`renumber_correct`, `moved_block_placed`)
+fn expected_text(prog: &Prog, rq: &Req, k: &Know) -> String {
+    let upd = rq.flags & 2 == 0;
+    let new_rows: Vec<String> = prog.lines.iter().map(|l| render_line(l, &|s: &Seg| match s {
+        Seg::Lit(t) => t.clone(),
+        Seg::Prim(o, t) => k.mapping.get(o).map(|n| n.to_string()).unwrap_or(t.clone()),
+        Seg::Ref(o, t) => if upd { k.mapping.get(o).map(|n| n.to_string()).unwrap_or(t.clone()) } else { t.clone() },
+    })).collect();
+    if !k.needs_move {
+        // same rows, same separators unless mixed (then LF), same final-newline state
+        let mut s = String::new();
+        for (i, l) in new_rows.iter().enumerate() {
+            s += l;
+            if i + 1 < new_rows.len() || prog.trailing { s += if prog.mixed() { "\n" } else { prog.seps[i] }; }
+        }
+        return s;
+    }
+    let (a, b) = (k.sel_rows[0], *k.sel_rows.last().unwrap());
+    let block: Vec<String> = new_rows[a..=b].to_vec();
+    let mut rows: Vec<String> = Vec::new();
+    for (r, l) in new_rows.iter().enumerate() {
+        if r >= a && r <= b { continue; }
+        if r == k.ins { rows.extend(block.iter().cloned()); }
+        rows.push(l.clone());
+    }
+    if prog.trailing { rows.push(String::new()); }
+    if k.ins == new_rows.len() { rows.extend(block.iter().cloned()); }
+    let sep = if prog.crlf_doc() { "\r\n" } else { "\n" };
+    let mut s = rows.join(sep);
+    s += sep;
+    s
+}
+
+/// numbers found in `actual` at the number segments of `l` (blanks inside a number ignored); None if a literal differs
 fn match_line(l: &PLine, actual: &str) -> Option<Vec<usize>> {
     let b = actual.as_bytes();
     let mut pos = 0;
     let mut nums = Vec::new();
-    for s in l {
+    for (i, s) in l.iter().enumerate() {
         match s {
             Seg::Lit(t) => { if !actual[pos..].starts_with(t.as_str()) { return None; } pos += t.len(); }
             _ => {
                 let st = pos;
-                while pos < b.len() && b[pos].is_ascii_digit() { pos += 1; }
-                if st == pos || pos - st > 18 { return None; }
-                nums.push(actual[st..pos].parse::<usize>().ok()?);
+                while pos < b.len() && (b[pos].is_ascii_digit() || b[pos] == b' ') { pos += 1; }
+                // give back blanks (and nothing else) until the following literal fits
+                let next: String = l[i + 1..].iter().take_while(|s| matches!(s, Seg::Lit(_))).map(plain).collect();
+                while pos > st && !(actual[pos..].starts_with(next.as_str()) && b[pos - 1].is_ascii_digit()) { pos -= 1; }
+                let digits: String = actual[st..pos].chars().filter(|c| *c != ' ').collect();
+                if digits.is_empty() || digits.len() > 18 { return None; }
+                nums.push(digits.parse::<usize>().ok()?);
             }
         }
     }
@@ -250,15 +406,16 @@ fn match_line(l: &PLine, actual: &str) -> Option<Vec<usize>> {
 fn special_cases(lang: Lang) -> Vec<(Prog, Req)> {
     let mk = |txt: &[&str], crlf: bool, trailing: bool| -> Prog {
         // parse "N rest" lines with no references marked (used only for tie + weak oracles)
-        let lines = txt.iter().map(|t| {
+        let lines: Vec<PLine> = txt.iter().map(|t| {
             let digits: String = t.chars().take_while(|c| c.is_ascii_digit()).collect();
-            if digits.is_empty() { vec![lit(t)] } else { vec![Seg::Prim(digits.parse().unwrap()), lit(&t[digits.len()..])] }
+            if digits.is_empty() { vec![lit(t)] } else { vec![Seg::Prim(digits.parse().unwrap(), digits.clone()), lit(&t[digits.len()..])] }
         }).collect();
-        Prog { lines, crlf, trailing }
+        let n = lines.len();
+        Prog { lines, seps: vec![if crlf { "\r\n" } else { "\n" }; n], trailing }
     };
     let m = lang.max();
     vec![
-        (Prog { lines: vec![], crlf: false, trailing: false }, Req { beg: 0, end: usize::MAX, first: 10, step: 10, flags: 0 }),
+        (Prog { lines: vec![], seps: vec![], trailing: false }, Req { beg: 0, end: usize::MAX, first: 10, step: 10, flags: 0 }),
         (mk(&["", " "], false, true), Req { beg: 0, end: usize::MAX, first: 10, step: 10, flags: 0 }),
         // DESIGN §9 item 23: empty selection
         (mk(&["10 PRINT A", "20 PRINT B", "30 END"], false, false), Req { beg: 21, end: 29, first: 500, step: 1, flags: 0 }),
@@ -271,36 +428,146 @@ fn special_cases(lang: Lang) -> Vec<(Prog, Req)> {
         (mk(&["10 PRINT A", "20 PRINT B", "30 END"], false, true), Req { beg: 30, end: 31, first: 5, step: 1, flags: 1 }),
         (mk(&["10 PRINT A", "20 PRINT B", "30 END"], true, true), Req { beg: 10, end: 11, first: 25, step: 1, flags: 1 }),
         (mk(&["10 PRINT A", "", "20 PRINT B", "", "30 END"], false, true), Req { beg: 10, end: 11, first: 25, step: 1, flags: 1 }),
+        // move of the first row behind the program end, with and without trailing newline, LF and CRLF
+        (mk(&["10 PRINT A", "20 PRINT B", "30 END"], false, false), Req { beg: 10, end: 11, first: 40, step: 1, flags: 1 }),
+        (mk(&["10 PRINT A", "20 PRINT B", "30 END"], false, true), Req { beg: 10, end: 11, first: 40, step: 1, flags: 1 }),
+        (mk(&["10 PRINT A", "20 PRINT B", "30 END"], true, false), Req { beg: 10, end: 11, first: 40, step: 1, flags: 1 }),
+        (mk(&["10 PRINT A", "20 PRINT B", "30 END", "", " "], false, true), Req { beg: 10, end: 21, first: 40, step: 1, flags: 1 }),
+        // bounds: last new number == max / max+1
+        (mk(&["10 PRINT A", "20 PRINT B"], false, true), Req { beg: 0, end: usize::MAX, first: m - 1, step: 1, flags: 0 }),
+        (mk(&["10 PRINT A", "20 PRINT B"], false, true), Req { beg: 0, end: usize::MAX, first: m, step: 1, flags: 0 }),
+        (mk(&["10 PRINT A", "20 PRINT B"], false, true), Req { beg: 20, end: 21, first: m, step: 1, flags: 0 }),
+        // a line number twice in the source
+        (mk(&["10 PRINT A", "10 PRINT B", "30 END"], false, true), Req { beg: 30, end: 31, first: 40, step: 1, flags: 0 }),
     ]
 }
 
 pub fn run(ctx: &mut Ctx) {
     let mut rng = Rng::new(ctx.seed ^ 0xC16);
-    let n = ctx.n(10000, 200000);
+    let n = ctx.n(9000, 200000);
+    let nlong = ctx.n(2, 12);
+    let nsess = ctx.n(1200, 20000);
     let mut idx = 0usize;
     for lang in [Lang::Applesoft, Lang::Integer] {
         let specials = special_cases(lang);
         let ns = specials.len();
         let mut specials = specials.into_iter();
-        for k in 0..(n / 2 + ns) {
+        for k in 0..(n / 2 + ns + nlong) {
             let my = idx;
             idx += 1;
             let mut r = rng.fork(my as u64);
             let (prog, rq, marked) = if k < ns { let (p, q) = specials.next().unwrap(); (p, q, false) } else {
-                let p = gen_prog(&mut r, lang);
+                let p = gen_prog(&mut r, lang, if k < ns + nlong { Size::Long } else { Size::Normal });
                 let q = gen_req(&mut r, lang, &p.nums());
                 (p, q, true)
             };
             if !ctx.out.wants(my) { continue; }
             one_case(ctx, lang, my, &prog, &rq, marked);
         }
+        for _ in 0..nsess / 2 {
+            let my = idx;
+            idx += 1;
+            let mut r = rng.fork(my as u64);
+            if !ctx.out.wants(my) { continue; }
+            session(ctx, lang, my, &mut r);
+        }
+    }
+}
+
+/// a program in which one gather pass aborts: a number of 20+ digits as a line number (not on the first numbered
+/// line) or as a branch target (after an ordinary reference)
+fn poison(rng: &mut Rng, lang: Lang) -> String {
+    let p = gen_prog(rng, lang, Size::Normal);
+    let mut rows: Vec<String> = p.lines.iter().map(|l| render_line(l, &plain)).collect();
+    let huge = *rng.pick(&["99999999999999999999", "18446744073709551616", "123456789012345678901234567890"]);
+    let numbered: Vec<usize> = p.lines.iter().enumerate().filter(|(_, l)| !is_blank(l)).map(|(r, _)| r).collect();
+    let at = if numbered.len() >= 2 { numbered[rng.range(1, numbered.len() - 1)] } else { rows.len() };
+    let kw = match lang { Lang::Applesoft => "HOME", Lang::Integer => "TEXT" };
+    let bad = match rng.below(3) {
+        0 => format!("{} {}", huge, kw),                                 // a line number that does not fit
+        1 => format!("{} GOTO {}", 64000 + rng.below(100), huge),        // a branch target that does not fit
+        _ => format!("{} GOSUB {}: GOTO {}", 64000 + rng.below(100), rng.range(0, 5000), huge),
+    };
+    if at >= rows.len() { rows.push(bad); } else { rows.insert(at, bad); }
+    let mut s = rows.join("\n");
+    s.push('\n');
+    s
+}
+
+/// 2-5 calls on ONE object; every result must be the result of the same call on a fresh object
+fn session(ctx: &mut Ctx, lang: Lang, idx: usize, rng: &mut Rng) {
+    let ln = lang.name();
+    let ncalls = rng.range(2, 5);
+    let mut obj = Obj::new(lang);
+    let mut log: Vec<String> = Vec::new();
+    let mut canon: Vec<u8> = Vec::new();
+    let mut aborted = false;
+    let mut compared = 0;
+    for c in 0..ncalls {
+        let kind = if c + 1 == ncalls { 0 } else { rng.below(10) };
+        match kind {
+            // a gather pass on its own (the trait methods are public), aborting or not
+            7 => {
+                let src = if rng.chance(70) { poison(rng, lang) } else { gen_prog(rng, lang, Size::Normal).text() };
+                let defs = rng.chance(50);
+                let r = guarded(|| obj.gather_only(&src, defs));
+                log.push(format!("gather_{}({:?})={:?}", if defs { "defs" } else { "refs" }, src, r));
+                if !matches!(r, Ok(true)) { aborted = true; }
+                canon.extend_from_slice(src.as_bytes());
+            }
+            // a program that is refused in the middle of a pass
+            8 | 9 => {
+                let src = poison(rng, lang);
+                let rq = gen_req(rng, lang, &vec![10, 20, 1000]);
+                let r = guarded(|| obj.renumber(&src, &rq));
+                log.push(format!("renumber({:?},{},{},{},{},f{})={}", src, rq.beg, rq.end, rq.first, rq.step, rq.flags, match &r { Ok(Ok(_)) => "ok", Ok(Err(_)) => "err", Err(_) => "panic" }));
+                let fresh = run_real(lang, &src, &rq);
+                ctx.out.oracle(same_result(&r, &fresh), "object-reuse", &format!("c16/{}/object-reuse/result-differs", ln), &format!("idx={} lang={} session: {}", idx, ln, log.join(" ; ")));
+                compared += 1;
+                aborted = true;
+                canon.extend_from_slice(src.as_bytes());
+            }
+            // an ordinary call: accepted, or refused for one of the ordinary reasons
+            _ => {
+                let p = gen_prog(rng, lang, Size::Normal);
+                let src = p.text();
+                let mut rq = gen_req(rng, lang, &p.nums());
+                // partial selections are the ones a stale map can widen
+                if rng.chance(60) { let ns = p.nums(); if ns.len() >= 2 { let k = rng.range(1, ns.len() - 1); rq.beg = ns[k]; rq.end = usize::MAX; rq.first = ns[k] + rng.range(0, 3); rq.step = 1; } }
+                let r = guarded(|| obj.renumber(&src, &rq));
+                log.push(format!("renumber({:?},{},{},{},{},f{})={}", src, rq.beg, rq.end, rq.first, rq.step, rq.flags, match &r { Ok(Ok(t)) => format!("ok {:?}", t), Ok(Err(_)) => "err".to_string(), Err(_) => "panic".to_string() }));
+                let fresh = run_real(lang, &src, &rq);
+                ctx.out.oracle(same_result(&r, &fresh), "object-reuse", &format!("c16/{}/object-reuse/result-differs", ln), &format!("idx={} lang={} session: {} ; fresh={:?}", idx, ln, log.join(" ; "), fresh.as_ref().map(|x| x.as_ref().ok())));
+                compared += 1;
+                canon.extend_from_slice(src.as_bytes());
+                canon.extend_from_slice(format!("|{}|{}|{}|{}|{}", rq.beg, rq.end, rq.first, rq.step, rq.flags).as_bytes());
+            }
+        }
+    }
+    ctx.out.count("session");
+    if aborted { ctx.out.count("session:with-aborted-pass"); }
+    ctx.out.count_n("session:calls-compared", compared);
+    ctx.out.case(&canon, aborted);
+}
+
+fn same_result(a: &Result<Result<String, String>, String>, b: &Result<Result<String, String>, String>) -> bool {
+    match (a, b) {
+        (Ok(Ok(x)), Ok(Ok(y))) => x == y,
+        (Ok(Err(_)), Ok(Err(_))) => true,
+        (Err(_), Err(_)) => true,
+        _ => false,
     }
 }
 
 fn one_case(ctx: &mut Ctx, lang: Lang, idx: usize, prog: &Prog, rq: &Req, marked: bool) {
     let ln = lang.name();
     let src = prog.text();
-    let case = format!("idx={} lang={} beg={} end={} first={} step={} flags={} src={:?}", idx, ln, rq.beg, rq.end, rq.first, rq.step, rq.flags, src);
+    let long = prog.lines.len() > 500;
+    let case = if long {
+        format!("idx={} lang={} beg={} end={} first={} step={} flags={} src=<{} lines, fnv {:016x}>", idx, ln, rq.beg, rq.end, rq.first, rq.step, rq.flags, prog.lines.len(), fnv(src.as_bytes()))
+    } else {
+        format!("idx={} lang={} beg={} end={} first={} step={} flags={} src={:?}", idx, ln, rq.beg, rq.end, rq.first, rq.step, rq.flags, src)
+    };
     let nums = prog.nums();
     let max = lang.max();
     let sel: Vec<usize> = nums.iter().cloned().filter(|x| *x >= rq.beg && *x < rq.end).collect();
@@ -328,59 +595,84 @@ fn one_case(ctx: &mut Ctx, lang: Lang, idx: usize, prog: &Prog, rq: &Req, marked
     // the unfixed and the fixed code
     let op = if sel.is_empty() && !matches!(real, Ok(Err(_))) { "renum-legacy" } else { "renum" };
     ctx.out.q(&format!("c16 {} {} {} {} {} {} {} {} {} {}", op, max, rq.flags, rq.beg, rq.end, rq.first, rq.step, hx(src.as_bytes()), ser_labels(&defs), ser_labels(&refs)), &ans);
+    // a refusal hands nothing back and the caller's text is what it was
     ctx.out.oracle(src == before, "refusal-unmodified", &format!("c16/{}/source-modified", ln), &case);
 
     // ---- distribution -------------------------------------------------------------------------
     let outcome = match &real { Ok(Ok(_)) => "ok", Ok(Err(_)) => "refused", Err(_) => "panic" };
     ctx.out.count(&format!("{}:{}", ln, outcome));
     ctx.out.count(&format!("sel:{}", match sel.len() { 0 => "empty", 1 => "one", x if x == nums.len() => "all", _ => "part" }));
-    if prog.crlf { ctx.out.count("crlf"); }
+    if prog.crlf_doc() && prog.lines.len() > 1 { ctx.out.count("crlf"); }
+    if prog.mixed() { ctx.out.count("mixed-line-ends"); }
+    if long { ctx.out.count("long-program"); }
     if rq.flags & 1 == 1 { ctx.out.count("move-flag"); }
+    if rq.flags & 2 == 2 { ctx.out.count("pass-over-refs"); }
+    if src.contains(" 0") && marked && prog.lines.iter().flatten().any(|s| matches!(s, Seg::Prim(_, t) | Seg::Ref(_, t) if t.starts_with('0') && t.len() > 1)) { ctx.out.count("leading-zero-number"); }
+    if marked && prog.lines.iter().flatten().any(|s| matches!(s, Seg::Prim(_, t) | Seg::Ref(_, t) if t.contains(' '))) { ctx.out.count("blank-inside-number"); }
     let nrefs = refs.len();
     ctx.out.count(&format!("refs:{}", match nrefs { 0 => "0", 1..=2 => "1-2", 3..=6 => "3-6", _ => "7+" }));
 
     // ---- direct oracles -----------------------------------------------------------------------
-    // expected mapping from the property text: selected lines, ascending, get first, first+step, ...
-    let mapping: BTreeMap<usize, usize> = sel.iter().enumerate().map(|(i, x)| (*x, rq.first + i * rq.step)).collect();
-    let digit_change = mapping.iter().any(|(a, b)| a.to_string().len() != b.to_string().len());
+    let empty_doc = src.lines().count() == 0;
+    let kn = know(prog, rq);
+    // (1) refused exactly when the request has to be refused (`refused_iff`)
+    if !empty_doc {
+        let want = expect_refuse(prog, rq, max);
+        match (&real, want) {
+            (Ok(Ok(_)), Some(why)) if !(why == "empty-selection") =>
+                ctx.out.oracle(false, "refused-iff", &format!("c16/{}/{}", ln, match why { "over-max" | "bad-parameters" => "accepted-over-max", "move-not-allowed" | "dup-or-interleave" | "duplicate-source-number" => "accepted-dup-or-interleave", _ => "accepted-must-refuse" }), &format!("{} must-refuse={}", case, why)),
+            (Ok(Ok(out)), Some(_)) =>
+                // empty selection: the known finding of round 1 keeps its signature
+                ctx.out.oracle(*out == src, "empty-selection", &format!("c16/{}/empty-selection-renumbered", ln), &case),
+            (Ok(Err(_)), None) => ctx.out.oracle(false, "refused-iff", &format!("c16/{}/refused-without-reason", ln), &case),
+            _ => ctx.out.oracle(true, "refused-iff", "", &case),
+        }
+        if let Some(why) = want { ctx.out.count(&format!("must-refuse:{}", why)); }
+    }
     match &real {
         Err(p) => {
             // a crash is not a refusal; the only crash the design knows is the empty document
-            let empty_doc = src.lines().count() == 0;
             ctx.out.oracle(empty_doc, "no-panic", &format!("c16/{}/panic:{}", ln, panic_site(p).split(':').next().unwrap_or("?").rsplit('/').next().unwrap_or("?")), &case);
             if empty_doc { ctx.out.count("panic-empty-doc"); }
         }
         Ok(Err(_)) => {}
         Ok(Ok(out)) => {
-            let olines = out_lines(out);
-            if sel.is_empty() {
-                ctx.out.oracle(*out == src, "empty-selection", &format!("c16/{}/empty-selection-renumbered", ln), &case);
-            } else {
-                // line structure: every non-blank output line must be one of the input lines with numbers replaced
-                let src_nb: Vec<&PLine> = prog.lines.iter().filter(|l| !is_blank(l)).collect();
+            if let Some(k) = &kn {
+                // (2) the text: the one rendering the generator's knowledge allows
+                let want = expected_text(prog, rq, k);
+                let exact = *out == want;
+                if k.needs_move { ctx.out.count("moved-block"); if k.ins < k.sel_rows[0] { ctx.out.count("moved-up"); } else { ctx.out.count("moved-down"); }
+                    if k.ins == 0 { ctx.out.count("moved-to-program-start"); }
+                    if k.ins == prog.lines.len() { ctx.out.count("moved-to-program-end"); } }
+                // classify a deviation by clause
+                let olines = out_lines(out);
+                let wlines = out_lines(&want);
+                let src_nb = prog.lines.iter().filter(|l| !is_blank(l)).count();
                 let out_nb: Vec<&String> = olines.iter().filter(|l| !l.trim().is_empty()).collect();
-                let moved = rq.flags & 1 == 1;
-                // expected order of the non-blank lines
-                let mut order: Vec<usize> = (0..src_nb.len()).collect();
-                let newnum = |i: usize| -> usize { let old = nums[i]; *mapping.get(&old).unwrap_or(&old) };
-                if moved { order.sort_by_key(|i| newnum(*i)); }  // stable
-                if order.windows(2).any(|w| w[0] > w[1]) { ctx.out.count("moved-block"); }
-                let mut ok_lines = out_nb.len() == src_nb.len();
-                let mut ok_text = true; let mut ok_prim = true; let mut ok_ref = true; let mut ok_ref_other = true;
+                let ok_lines = out_nb.len() == src_nb;
+                // expected order of the source rows in the output
+                let mut order: Vec<usize> = Vec::new();
+                if k.needs_move {
+                    let (a, b) = (k.sel_rows[0], *k.sel_rows.last().unwrap());
+                    for r in 0..prog.lines.len() { if r >= a && r <= b { continue; } if r == k.ins { order.extend(a..=b); } order.push(r); }
+                    if k.ins == prog.lines.len() { order.extend(a..=b); }
+                } else { order.extend(0..prog.lines.len()); }
+                let order_nb: Vec<usize> = order.into_iter().filter(|r| !is_blank(&prog.lines[*r])).collect();
+                let (mut ok_text, mut ok_prim, mut ok_ref, mut ok_ref_other) = (true, true, true, true);
                 let mut out_prims: Vec<usize> = Vec::new();
-                if ok_lines {
-                    for (pos, i) in order.iter().enumerate() {
-                        match match_line(src_nb[*i], out_nb[pos]) {
+                if ok_lines && !exact {
+                    for (pos, r) in order_nb.iter().enumerate() {
+                        match match_line(&prog.lines[*r], out_nb[pos]) {
                             None => { ok_text = false; }
                             Some(found) => {
                                 let mut it = found.iter();
-                                for s in src_nb[*i] {
+                                for s in &prog.lines[*r] {
                                     match s {
-                                        Seg::Prim(old) => { let f = *it.next().unwrap(); out_prims.push(f); if f != *mapping.get(old).unwrap_or(old) { ok_prim = false; } }
-                                        Seg::Ref(old) => {
+                                        Seg::Prim(old, _) => { let f = *it.next().unwrap(); out_prims.push(f); if f != *k.mapping.get(old).unwrap_or(old) { ok_prim = false; } }
+                                        Seg::Ref(old, _) => {
                                             let f = *it.next().unwrap();
-                                            let want = if rq.flags & 2 == 0 { *mapping.get(old).unwrap_or(old) } else { *old };
-                                            if f != want { if mapping.contains_key(old) { ok_ref = false; } else { ok_ref_other = false; } }
+                                            let w = if rq.flags & 2 == 0 { *k.mapping.get(old).unwrap_or(old) } else { *old };
+                                            if f != w { if k.mapping.contains_key(old) { ok_ref = false; } else { ok_ref_other = false; } }
                                         }
                                         _ => {}
                                     }
@@ -388,48 +680,25 @@ fn one_case(ctx: &mut Ctx, lang: Lang, idx: usize, prog: &Prog, rq: &Req, marked
                             }
                         }
                     }
-                } else { ok_lines = false; }
+                }
                 let ascending = out_prims.windows(2).all(|w| w[0] < w[1]);
                 ctx.out.oracle(ok_lines, "same-lines", &format!("c16/{}/lines-changed", ln), &case);
-                if ok_lines {
-                    ctx.out.oracle(ok_text, "text-unchanged", &format!("c16/{}/text-changed", ln), &case);
-                    if ok_text {
-                        ctx.out.oracle(ok_prim, "primary-sequence", &format!("c16/{}/primary-seq", ln), &case);
-                        ctx.out.oracle(ok_ref, "refs-follow", &format!("c16/{}/ref-not-updated", ln), &case);
-                        ctx.out.oracle(ok_ref_other, "refs-others", &format!("c16/{}/ref-wrongly-changed", ln), &case);
-                        ctx.out.oracle(ascending, "refuses-dup-interleave", &format!("c16/{}/accepted-dup-or-interleave", ln), &case);
-                        ctx.out.oracle(out_prims.iter().all(|x| *x <= max), "refuses-over-max", &format!("c16/{}/accepted-over-max", ln), &case);
-                    }
-                }
-                if !moved {
-                    // without move: exact text (blank lines, separators, trailing newline included)
-                    let want_lines: Vec<String> = prog.lines.iter().map(|l| render_line(l, &|s: &Seg| match s {
-                        Seg::Lit(t) => t.clone(),
-                        Seg::Prim(o) => mapping.get(o).unwrap_or(o).to_string(),
-                        Seg::Ref(o) => if rq.flags & 2 == 0 { mapping.get(o).unwrap_or(o).to_string() } else { o.to_string() },
-                    })).collect();
-                    let want = prog.render_with(&want_lines);
-                    ctx.out.oracle(*out == want, "exact-text", &format!("c16/{}/text-changed", ln), &case);
-                }
+                ctx.out.oracle(exact || !ok_lines || ok_text, "text-unchanged", &format!("c16/{}/text-changed", ln), &case);
+                ctx.out.oracle(exact || ok_prim, "primary-sequence", &format!("c16/{}/primary-seq", ln), &case);
+                ctx.out.oracle(exact || ok_ref, "refs-follow", &format!("c16/{}/ref-not-updated", ln), &case);
+                ctx.out.oracle(exact || ok_ref_other, "refs-others", &format!("c16/{}/ref-wrongly-changed", ln), &case);
+                ctx.out.oracle(exact || ascending, "ascending", &format!("c16/{}/accepted-dup-or-interleave", ln), &case);
+                // everything else (separators, blank rows, where the block stands, final newline)
+                let sig = if k.needs_move && olines.len() == wlines.len() && { let mut a = olines.clone(); let mut b = wlines.clone(); a.sort(); b.sort(); a == b } { "block-misplaced" } else { "text-changed" };
+                ctx.out.oracle(exact, "exact-text", &format!("c16/{}/{}", ln, sig), &format!("{} want={:?}", case, if long { "<long>".to_string() } else { want.clone() }));
             }
         }
     }
-    // must-refuse conditions stated on the request alone (independent of how the code decides)
-    if !sel.is_empty() && rq.step >= 1 {
-        let last = rq.first + rq.step * (sel.len() - 1);
-        let unsel: Vec<usize> = nums.iter().cloned().filter(|x| !(*x >= rq.beg && *x < rq.end)).collect();
-        let over = last > max;
-        let collide = unsel.iter().any(|u| *u >= rq.first && *u <= last);
-        if over || collide {
-            let refused = matches!(real, Ok(Err(_)));
-            ctx.out.oracle(refused, "must-refuse", &format!("c16/{}/{}", ln, if over { "accepted-over-max" } else { "accepted-dup-or-interleave" }), &case);
-            ctx.out.count(if over { "req:over-max" } else { "req:collide" });
-        }
-    }
     let nontrivial = matches!(real, Ok(Ok(_))) && !sel.is_empty() && nrefs > 0;
+    let digit_change = kn.as_ref().map(|k| k.mapping.iter().any(|(a, b)| a.to_string().len() != b.to_string().len())).unwrap_or(false);
     if digit_change && nontrivial { ctx.out.count("digit-count-change"); }
     let mut canon = src.clone().into_bytes();
     canon.extend_from_slice(format!("|{}|{}|{}|{}|{}", rq.beg, rq.end, rq.first, rq.step, rq.flags).as_bytes());
     ctx.out.case(&canon, nontrivial);
-    if nontrivial && digit_change { ctx.out.sample(&case); }
+    if nontrivial && digit_change && !long { ctx.out.sample(&case); }
 }
